@@ -43,8 +43,14 @@ class KindChecker:
         self.receiver_maps = receiver_maps or {}
         self.check_returns = check_returns
         self.sigs = {}
+        self.elem_sigs = {}      # (name, arity) -> element kinds of the container parameters (None where not one)
         for f in functions:
             ks = [self.param_kind(p) for p in f.get('params', [])]
+            eks = [elem_kind_of_type(p.get('t'), self.kt) for p in f.get('params', [])]
+            ekey = (f['name'], len(eks))
+            if ekey in self.elem_sigs:
+                eks = [a if a == b else None for a, b in zip(eks, self.elem_sigs[ekey])]
+            self.elem_sigs[ekey] = eks
             rk = kind_of_type(f.get('ret'), self.kt)
             key = (f['name'], len(ks))
             if key in self.sigs and self.sigs[key] != (ks, rk):
@@ -218,7 +224,14 @@ class KindChecker:
             return kind_of_type(e.get('t'), self.kt)
         if k == 'ArraySubscriptExpr' and len(c) == 2:
             cont = self.container_of(c[0], env)
-            return cont[1] if cont else None
+            if cont:
+                return cont[1]
+            b0 = ir.skipcasts(c[0])
+            if b0 is not None and b0.get('k') == 'DeclRefExpr':
+                en = env.get(b0.get('id'))
+                if en and en[0] == 'scalar' and en[2]:
+                    return en[2]                     # element of a local range of a known element kind
+            return None
         if k in ('BinaryOperator',) and e.get('op') in ('+', '-') and len(c) == 2:
             a, b = self.kind(c[0], env), self.kind(c[1], env)
             return a or b
@@ -242,6 +255,12 @@ class KindChecker:
             if name in ('at', 'operator[]'):
                 cont = self.container_of(ir.call_receiver(e), env)
                 return cont[1] if cont else None
+            if name in ('back', 'front') and not args:
+                r0 = ir.skipcasts(ir.call_receiver(e))
+                if r0 is not None and r0.get('k') == 'DeclRefExpr':
+                    en = env.get(r0.get('id'))
+                    if en and en[0] == 'scalar' and en[2]:
+                        return en[2]
             sig = self.sigs.get((name, len(args)))
             if sig:
                 return self.receiver_map(e).get(sig[1], sig[1])
@@ -329,6 +348,17 @@ class KindChecker:
             sig = self.sigs.get((name, len(args)))
             if sig:
                 rmap = self.receiver_map(n)
+                for i, (a, pek) in enumerate(zip(args, self.elem_sigs.get((name, len(args)), []))):
+                    a0 = ir.skipcasts(a)
+                    if pek and a0 is not None and a0.get('k') == 'DeclRefExpr':
+                        en = env.get(a0.get('id'))
+                        aek = en[2] if en and en[0] == 'scalar' else None
+                        if aek:
+                            self.checked += 1
+                            if aek != rmap.get(pek, pek):
+                                self.report(n, 'argument %d of %s expects a range of %s but %s holds %s values' % (
+                                    i + 1, name, pek, ir.show(a)[:50], aek),
+                                    'argelem%d:%s:%s->%s' % (i + 1, name, aek, pek))
                 for i, (a, pk) in enumerate(zip(args, sig[0])):
                     ak = self.kind(a, env)
                     pk = rmap.get(pk, pk)
